@@ -20,15 +20,15 @@ with the cleanup on every failure path - is proved from the TRANSLATED source fo
 textual pin of the call skeleton that stood here broke under harmless rewrites (a renamed local)
 and is gone; `Facts.writeFileSteps` is still generated, nothing depends on it. -/
 
-/-- `FileCache.Set` makes exactly one file-system call: `WriteFile` with the cache root as temp
-directory (same file system as the destination, so the rename is atomic) and `root/fileName(url)`
-as destination -/
-theorem fact_set_uses_root_as_tempdir :
-    Facts.crlSetCalls = ["file.WriteFile(c.root,filepath.Join(c.root,c.fileName(url)),contentBytes)"] := by decide
-
-/-- `FileCache.Get` touches the file system once: a single `os.ReadFile` of the key path -/
-theorem fact_get_single_readfile :
-    Facts.crlGetCalls = ["os.ReadFile(filepath.Join(c.root,c.fileName(url)))"] := by decide
+/-- `FileCache.Set` makes exactly ONE file-system call, `file.WriteFile`, and `FileCache.Get` exactly one,
+`os.ReadFile` (callees only: WHICH arguments they get - the cache root as temp directory, so that the
+rename never crosses a file system, and `root/hex(sha256(url))` as destination / path read - is proved
+from the translated source: `Tie.source_Set_runs_protocol` in `Props/C14_WriteFile.lean`,
+`C15.Tie.source_Get_refines_model`. The textual pins of the argument lists that stood here broke under
+a renamed receiver.) -/
+theorem fact_set_and_get_make_one_call_each :
+    Facts.crlSetCalls.map (fun s => s.toList.takeWhile (· != '(')) = ["file.WriteFile".toList] ∧
+    Facts.crlGetCalls.map (fun s => s.toList.takeWhile (· != '(')) = ["os.ReadFile".toList] := by decide
 
 theorem fact_temp_prefix : Facts.tempFileNamePrefix.toList = tempPrefix ++ ['*'] := by decide
 
